@@ -24,8 +24,8 @@ ASSUMPTIONS = [
     "subclass instances are only swapped in at union-free positions (a union would dispatch them by the first-acceptor rule, C08)",
     "'same on every call' is judged on the same live object in one process (set iteration order is stable there)",
 ]
-PLAN = {"quick": dict(programs=1500, depth=3, values=8), "thorough": dict(programs=40000, depth=5, values=14)}
-FLOORS = {"quick": {"marshal_checked": 25000, "subclass_values": 4000, "literal_nonmember_checked": 1000, "shapes": 1500},
+PLAN = {"quick": dict(programs=5000, depth=3, values=8), "thorough": dict(programs=40000, depth=5, values=14)}
+FLOORS = {"quick": {"marshal_checked": 100000, "subclass_values": 12000, "literal_nonmember_checked": 5000, "shapes": 5000},
           "thorough": {"marshal_checked": 900000, "subclass_values": 150000, "literal_nonmember_checked": 30000, "shapes": 30000}}
 
 
@@ -224,7 +224,4 @@ def run_case(sh, i, plan):
 
 def run_shard(sh):
     plan = PLAN[sh.tier]
-    n = per_shard(plan["programs"], sh.nshards, sh.shard)
-    for i in range(n):
-        if sh.begin_case(i):
-            run_case(sh, i, plan)
+    sh.run_cases(per_shard(plan["programs"], sh.nshards, sh.shard), lambda i: run_case(sh, i, plan))
